@@ -172,8 +172,15 @@ func (k *Kernel) Yield(task int, point string) {
 	if !k.enabled || k.killed || task < 0 {
 		return
 	}
+	id := curGoid()
 	if k.goid[task] == 0 {
-		k.goid[task] = curGoid()
+		k.goid[task] = id
+	} else if k.goid[task] != id {
+		// the operation is performed on this task's connection by another
+		// goroutine (e.g. a Close caller closing the socket): it is a schedule
+		// point of the goroutine that performs it
+		k.YieldHook(point)
+		return
 	}
 	k.park(task, point)
 }
